@@ -123,6 +123,7 @@ def run(repo, rep, tier):
     # prefix means what the enclosing elements declared: declarations of an
     # empty element end with it (C18 owns the namespace-stack rules)
     _pi_target(repo, rep)
+    _pi_compare(repo, rep)
     parser_details(repo, rep)
     from . import c18, c07
     L.borrow(repo, rep, "R03.3", "C18", c18._nsstack, ("empty-tag",))
@@ -858,6 +859,27 @@ def rx_walk(items):
         elif op is C.BRANCH:
             for alt in av[1]:
                 yield from rx_walk(alt)
+
+
+def _pi_compare(repo, rep):
+    """XML names are case sensitive: the target of a processing instruction
+    is compared with 'python' as it is written."""
+    vp = repo.func(PROG + "visit_processing_instruction")
+    cmps = [c for c in ast.walk(vp.node) if isinstance(c, ast.Compare)
+            and any(isinstance(x, ast.Constant) and x.value == "python"
+                    for x in [c.left] + c.comparators)]
+    ok = bool(cmps)
+    for c in cmps:
+        other = [x for x in [c.left] + c.comparators
+                 if not isinstance(x, ast.Constant)]
+        if len(c.ops) != 1 or not isinstance(c.ops[0], (ast.Eq, ast.NotEq)) \
+                or any(isinstance(y, ast.Call) for x in other
+                       for y in ast.walk(L.inline_locals(vp.node, x))):
+            ok = False
+    rep.check(ok, "R03.3", vp.qualname, "a processing instruction is a code "
+              "block when its target equals 'python' as written (no case "
+              "folding, no prefix test)", construct="pi-target-compare",
+              where=L.where(vp), detail=str([src(c) for c in cmps]))
 
 
 def _pi_target(repo, rep):
